@@ -742,6 +742,21 @@ def _r6_serial(run, ev):
     sd = [x for x in r.events if x.kind == "call" and x.term[1][0] == "attr" and x.term[1][2] == "set_data" and ("loop", k) in x.pc]
     sd_ok = bool(sd) and sd[0].term[2] and boolalg.equiv(sd[0].term[2][0], ("op", "or", (leaf_t, live_any))) is True \
         and not _about(sd[0].pc, el)
+    if not sd_ok and len(sd) > 1 and all(x.term[2] for x in sd):
+        # several set_data sites, one per case (`if is_leaf: set_data(True); continue` ... `set_data(any(data))`): what is recorded is
+        # the value of the site that runs; together the sites must cover every tile
+        def norm_any(t):
+            if isinstance(t, tuple):
+                if t == ("call", ("sym", "any"), (data_t,), ()):
+                    return live_any
+                return tuple(norm_any(x) if isinstance(x, tuple) else x for x in t)
+            return t
+        parts = [("op", "and", (norm_any(boolalg.conj(_about(x.pc, el))), norm_any(x.term[2][0]))) for x in sd]
+        covers = ("op", "or", tuple(norm_any(boolalg.conj(_about(x.pc, el))) for x in sd))
+        recorded = ("op", "or", tuple(parts))
+        sd_ok = boolalg.equiv(recorded, ("op", "or", (leaf_t, live_any))) is True and boolalg.equiv(covers, sym.TRUE) is True
+        if okc is not True:
+            okc = boolalg.equiv(norm_any(cond), want)
     if okc is True and arg_ok and sd_ok:
         run.holds("C01.R6", f, e.node, "serial: callback(pos) iff non-leaf with a live child; same liveness handed upwards")
     elif not arg_ok:
@@ -825,8 +840,23 @@ def _r9_stateless(run):
                                 bad.append((g, n, "self.%s[...]" % b.attr))
                                 break
                             b = b.value
-    if bad:
+    def keyed_cache(g, what):
+        # `if self._c is not None and self._c[0] == key: return self._c[1]` ... `self._c = (key, value)` in a counting helper: a cache
+        # with an explicit key; whether the key is complete is the memo rules' business (C13), not a statement about the walk
+        attr = what.split(".")[1].split("[")[0]
+        if g.name in ("walk", "_walk_parallel", "_walk_serial"):
+            return False
+        compared = any(isinstance(c_, ast.Compare) and any(isinstance(x_, ast.Attribute) and x_.attr == attr and isinstance(x_.value, ast.Name) and x_.value.id == "self"
+                                                            for x_ in ast.walk(c_)) for c_ in own_nodes(g.node))
+        returned = any(isinstance(r_, ast.Return) and r_.value is not None and any(isinstance(x_, ast.Attribute) and x_.attr == attr for x_ in ast.walk(r_.value))
+                       for r_ in own_nodes(g.node))
+        return compared and returned
+    if bad and all(keyed_cache(g_, w_) for g_, n_, w_ in bad):
         g, n, what = bad[0]
+        run.undecided("C01.R9", g, n, "%s keeps a keyed cache in %s that outlives the walk: whether a later walk can be handed a stale entry depends on the completeness "
+                      "of its key (decided by the memo rules of C13, not here)" % (g.short, what), kind="walk-keyed-cache")
+    elif bad:
+        g, n, what = [b for b in bad if not keyed_cache(b[0], b[2])][0]
         run.violated("C01.R9", g, n, "%s stores into %s during a walk: state that survives on the pyramid object makes a later walk of the same object depend on "
                      "the earlier one (e.g. a remembered readiness table that the dispatcher has already consumed)" % (g.short, what), kind="walk-keeps-state")
     else:
